@@ -21,7 +21,7 @@ NUM_KINDS = ["4", "8", "dp", "real64", "kind(1.0d0)", "selected_real_kind(15)", 
 CHAR_LENS = ["10", "*", ":", "n", "2*n"]
 SIMPLE_ATTRS = ["allocatable", "pointer", "target", "save", "contiguous", "value", "asynchronous", "volatile"]
 DIMS = ["(3)", "(:)", "(:,:)", "(n)", "(0:n-1)", "(2,3)", "(*)"]
-INITS = {"integer": ["1", "42", "-3", "2*n"], "real": ["1.0", "0.5e0", "1.0_dp"], "logical": [".true.", ".false."],
+INITS = {"integer": ["1", "42", "-3", "2*n"], "real": ["1.0", "0.5e0", "1.0_dp"], "logical": [".true.", ".false.", "1 == 2", "2 >= 1", "3 /= 4"],
          "character": ["'abc'", "\"x y\"", "'it''s'", "'a, b'", "'(/ 1 /)'", "\"0\"", "\"1\"", "'0'", "\"12\"", "\"2\""],
          "complex": ["(1.0, 2.0)"],
          "double precision": ["1.0d0"], "double complex": ["(1.0d0, 0.0d0)"]}
@@ -77,9 +77,13 @@ def gen_typespec(rng, types_visible, absints_visible, allow_proc=True):
     return {"base": "integer", "kind": None, "len": None, "proto": None}
 
 
-def gen_var(rng, nm, types_visible, absints_visible, role="local"):
-    """role: local | arg | component | modvar"""
-    spec = gen_typespec(rng, types_visible, absints_visible, allow_proc=(role != "arg"))
+def gen_var(rng, nm, types_visible, absints_visible, role="local", like=None):
+    """role: local | arg | component | modvar; `like`: an earlier variable of the same scope whose type
+    specification is taken over (so that one declaration statement can declare both)"""
+    if like is not None:
+        spec = dict(like["type"])
+    else:
+        spec = gen_typespec(rng, types_visible, absints_visible, allow_proc=(role != "arg"))
     v = {"name": nm.fresh("v"), "type": spec, "attrs": [], "dims": None, "intent": "", "optional": False,
          "parameter": False, "init": None, "points": False}
     base = spec["base"]
@@ -132,7 +136,18 @@ def gen_var(rng, nm, types_visible, absints_visible, role="local"):
             v["parameter"] = True
     if not v["attrs"] and role in ("modvar", "local") and not v["parameter"] and rng.random() < 0.2:
         v["attrs"].append(rng.choice(["save", "target"] + (["volatile", "asynchronous"] if role == "modvar" else [])))
+    if role in ("modvar", "local") and not v["parameter"] and rng.random() < 0.3:
+        # several attributes on one entity (any order, any mix of declaration and attribute statements later)
+        for a in rng.sample(["save", "target", "volatile", "asynchronous"], rng.choice([1, 2, 2, 3])):
+            if a not in v["attrs"] and not (a == "target" and "pointer" in v["attrs"]):
+                v["attrs"].append(a)
     return v
+
+
+def gen_sibling_or_new(rng, nm, earlier, types_visible, absints_visible, role):
+    """a new variable; with some probability of the same type as the previous one of the scope"""
+    like = earlier[-1] if earlier and rng.random() < 0.35 else None
+    return gen_var(rng, nm, types_visible, absints_visible, role=role, like=like)
 
 
 def gen_proc(rng, nm, types_visible, absints_visible, depth=0, in_interface=False, module_prefix=False):
@@ -142,7 +157,7 @@ def gen_proc(rng, nm, types_visible, absints_visible, depth=0, in_interface=Fals
          "interfaces": [], "exec": [], "contains": [], "uses": [], "module_prefix": module_prefix, "doc": None}
     nargs = rng.choice([0, 0, 1, 2, 3])
     for _ in range(nargs):
-        a = gen_var(rng, nm, types_visible, absints_visible, role="arg")
+        a = gen_sibling_or_new(rng, nm, p["args"], types_visible, absints_visible, "arg")
         a["declared"] = rng.random() < 0.9
         p["args"].append(a)
     if rng.random() < 0.3 and not in_interface:
@@ -172,7 +187,7 @@ def gen_proc(rng, nm, types_visible, absints_visible, depth=0, in_interface=Fals
             a["optional"] = False
     if not in_interface:
         for _ in range(rng.choice([0, 1, 2])):
-            p["locals"].append(gen_var(rng, nm, types_visible, absints_visible, role="local"))
+            p["locals"].append(gen_sibling_or_new(rng, nm, p["locals"], types_visible, absints_visible, "local"))
         p["exec"] = gen_exec(rng, p)
         if depth == 0 and rng.random() < 0.3:
             for _ in range(rng.choice([1, 2])):
@@ -264,7 +279,7 @@ def gen_interface(rng, nm, types_visible, procs_visible):
 
 def gen_scope_decls(rng, nm, scope, types_visible, absints_visible, role, n_vars):
     for _ in range(n_vars):
-        scope["vars"].append(gen_var(rng, nm, types_visible, absints_visible, role=role))
+        scope["vars"].append(gen_sibling_or_new(rng, nm, scope["vars"], types_visible, absints_visible, role))
 
 
 def gen_module(rng, nm, all_modules, size):
@@ -531,32 +546,89 @@ class Out:
             self.lines.append(" " * self.ind + "! an ordinary comment; call nothing(); type :: t")
 
 
-def mergeable(a, b):
-    """two entities that one type declaration statement can declare together"""
-    return (a["type"] == b["type"] and a["attrs"] == b["attrs"] and a["intent"] == b["intent"]
-            and a["optional"] == b["optional"] and a["parameter"] == b["parameter"])
+STMT_ATTRS = ("allocatable", "pointer", "target", "save", "volatile", "asynchronous")
 
 
-def render_merged(S, vs):
-    """`type, attrs :: a(dims) = init, b = init, ...` (an equivalent spelling of the separate declarations)"""
+def mergeable(a, b, allow_separate=False):
+    """two entities that one type declaration statement can declare together.  Where attribute statements are
+    allowed the entities may differ in their attributes, intent and OPTIONAL: what they do not share is given by
+    separate attribute statements that name only some entities of the line."""
+    if a["type"] != b["type"] or a["parameter"] != b["parameter"]:
+        return False
+    if a["attrs"] == b["attrs"] and a["intent"] == b["intent"] and a["optional"] == b["optional"]:
+        return True
+    if not allow_separate or a["type"]["base"] == "procedure":
+        return False
+    differing = set(a["attrs"]) ^ set(b["attrs"])
+    return all(x in STMT_ATTRS for x in differing)
+
+
+def render_merged(S, vs, allow_separate=False):
+    """`type, attrs :: a(dims) = init, b = init, ...` (an equivalent spelling of the separate declarations).
+    Returns (declaration statement, [separate attribute statements]): attributes, intent and OPTIONAL that not
+    every entity of the line has - and now and then shared ones - are written as attribute statements naming
+    exactly the entities that have them, several names per statement where possible."""
     rng = S.rng
     v = vs[0]
-    inline = [S.kw(a) for a in v["attrs"]]
-    if v["intent"]:
+    names = [S.ident(w["name"]) for w in vs]
+    separate = []
+
+    def stmt(kw, who):
+        # one statement for all of them, or one per entity
+        if len(who) > 1 and rng.random() < 0.4:
+            for n in who:
+                separate.append(kw + rng.choice([" :: ", " "]) + n)
+        else:
+            separate.append(kw + rng.choice([" :: ", " "]) + rng.choice([", ", ","]).join(who))
+
+    inline = []
+    all_attrs = []
+    for w in vs:
+        for a in w["attrs"]:
+            if a not in all_attrs:
+                all_attrs.append(a)
+    for a in all_attrs:
+        who = [n for n, w in zip(names, vs) if a in w["attrs"]]
+        shared = len(who) == len(vs)
+        can_stmt = allow_separate and a in STMT_ATTRS and v["type"]["base"] != "procedure"
+        if shared and not (can_stmt and rng.random() < 0.2):
+            inline.append(S.kw(a))
+        else:
+            stmt(S.kw(a), who)
+    intents = {w["intent"] for w in vs}
+    if len(intents) == 1 and v["intent"] and not (allow_separate and rng.random() < 0.2):
         inline.append(S.kw("intent") + S.sp() + "(" + S.kw(v["intent"]) + ")")
-    if v["optional"]:
+    else:
+        for it in sorted(i for i in intents if i):
+            stmt(S.kw("intent") + S.sp() + "(" + S.sp() + S.kw(it) + S.sp() + ")", [n for n, w in zip(names, vs) if w["intent"] == it])
+    opts = [n for n, w in zip(names, vs) if w["optional"]]
+    if opts and len(opts) == len(vs) and not (allow_separate and rng.random() < 0.2):
         inline.append(S.kw("optional"))
+    elif opts:
+        stmt(S.kw("optional"), opts)
     if v["parameter"]:
         inline.append(S.kw("parameter"))
     rng.shuffle(inline)
     ents = []
-    for w in vs:
-        e = S.ident(w["name"]) + (w["dims"] or "")
+    dim_stmt = []
+    shared_dims = v["dims"] if v["dims"] and all(w["dims"] == v["dims"] for w in vs) and rng.random() < 0.4 else None
+    if shared_dims:
+        inline.insert(rng.randrange(len(inline) + 1), S.kw("dimension") + S.sp() + shared_dims)
+    for n, w in zip(names, vs):
+        e = n
+        if w["dims"] and not shared_dims:
+            if allow_separate and w["init"] is None and rng.random() < 0.25:
+                dim_stmt.append(n + w["dims"])
+            else:
+                e += w["dims"]
         if w["init"] is not None:
             e += (" => " if w["points"] else rng.choice([" = ", "=", "  =  "])) + w["init"]
         ents.append(e)
+    if dim_stmt:
+        separate.append(S.kw("dimension") + rng.choice([" :: ", " "]) + rng.choice([", ", ","]).join(dim_stmt))
+    rng.shuffle(separate)
     return (render_typespec(S, v["type"]) + "".join(S.sp() + "," + S.sp() + a for a in inline) + S.sp() + "::" + S.sp()
-            + rng.choice([", ", ",", " , "]).join(ents))
+            + rng.choice([", ", ",", " , "]).join(ents)), separate
 
 
 def render_spec_vars(S, out, vars_, allow_separate=True):
@@ -567,13 +639,13 @@ def render_spec_vars(S, out, vars_, allow_separate=True):
         v = vars_[i]
         i += 1
         group = [v]
-        while i < len(vars_) and len(group) < 3 and mergeable(v, vars_[i]) and S.rng.random() < 0.4:
+        while i < len(vars_) and len(group) < 3 and all(mergeable(g, vars_[i], allow_separate) for g in group) and S.rng.random() < 0.4:
             group.append(vars_[i])
             i += 1
         if len(group) > 1:
-            out.add(render_merged(S, group))
-            continue
-        d, sep = render_decl(S, v, allow_separate)
+            d, sep = render_merged(S, group, allow_separate)
+        else:
+            d, sep = render_decl(S, v, allow_separate)
         out.add(d)
         pending += sep
         if pending and S.rng.random() < 0.5:
